@@ -57,12 +57,22 @@ PInit(cnt0, val0) ==
    val |-> val0, cnt |-> cnt0,           \* per message: stored value (-1 none), number of bus reads so far (= next value)
    srvl |-> [c \in Conns |-> FALSE],     \* listening mode as of the executed requests
    strl |-> [c \in Conns |-> FALSE],     \* listening mode as of the response blocks received
-   cst |-> [c \in Conns |-> "open"]]     \* open / closing (close announced) / closed (by the client) / eof (by the server)
+   need |-> [c \in Conns |-> [t \in Tags |-> 0]],   \* update lines owed to a listening connection (see PushDue below)
+   cst |-> [c \in Conns |-> "open"]]     \* open / shut (client closed its sending side, still reads) / closing (close
+                                         \* announced by the server) / closed (by the client) / eof (by the server)
 
 NewReq(kind, tag) == [k |-> kind, t |-> tag, st |-> "sent", rc |-> "", rt |-> 0, rz |-> <<>>]
 
+(* PushDue - "listen: Listen for updates": a value read from the bus while connection c is listening (stage 1) is owed  *)
+(* to c as an update line once the clock has moved on (2), c has sent a further line after that (3) and everything c   *)
+(* sent has been answered (4): it must then arrive before the next block / the end of the connection.  An update line  *)
+(* with the current value of the message settles the debt at any stage.                                                *)
+Promote(row, from, to) == [t \in Tags |-> IF row[t] = from THEN to ELSE row[t]]
+NoDebt(p, c) == \A t \in Tags : p.need[c][t] # 4
+PTick(p) == [p EXCEPT !.need = [c \in Conns |-> Promote(p.need[c], 1, 2)]]
+
 PInvOk(p, c, kind) == p.cst[c] \in {"open", "closing"} /\ kind \in Kinds
-PInv(p, c, kind, tag) == [p EXCEPT !.out[c] = Append(@, NewReq(kind, tag))]
+PInv(p, c, kind, tag) == [p EXCEPT !.out[c] = Append(@, NewReq(kind, tag)), !.need[c] = Promote(@, 2, 3)]
 
 RECURSIVE FirstSentFrom(_, _)
 FirstSentFrom(q, i) == IF i > Len(q) THEN 0 ELSE IF q[i].st = "sent" THEN i ELSE FirstSentFrom(q, i + 1)
@@ -98,7 +108,9 @@ PLin(p, c, bus) ==
   LET q == p.out[c]  i == FirstSent(q)  r == q[i]  res == ResultOf(p, c, r, bus)
       p1 == IF r.k = "empty" THEN [p EXCEPT !.out[c] = RemoveAt(q, i)]       \* nothing is awaited for an empty line
             ELSE [p EXCEPT !.out[c][i] = [r EXCEPT !.st = "done", !.rc = res[1], !.rt = res[2], !.rz = res[3]]]
-      p2 == IF bus THEN [p1 EXCEPT !.val[r.t] = p.cnt[r.t], !.cnt[r.t] = p.cnt[r.t] + 1] ELSE p1
+      p2 == IF bus THEN [p1 EXCEPT !.val[r.t] = p.cnt[r.t], !.cnt[r.t] = p.cnt[r.t] + 1,
+                                   !.need = [k \in Conns |-> IF p.strl[k] THEN [p.need[k] EXCEPT ![r.t] = 1] ELSE p.need[k]]]   \* the newest value counts
+            ELSE p1
   IN IF r.k = "listen" THEN [p2 EXCEPT !.srvl[c] = TRUE]
      ELSE IF r.k = "lstop" THEN [p2 EXCEPT !.srvl[c] = FALSE] ELSE p2
 
@@ -110,23 +122,209 @@ Match(r, cls, y, z) ==
                 /\ cls \in {"val", "find"} => (y = r.rt /\ z = r.rz)
 
 PRespOk(p, c, cls, y, z) ==
-  /\ p.cst[c] = "open"
+  /\ p.cst[c] \in {"open", "shut"}
   /\ p.out[c] # <<>> /\ Head(p.out[c]).st = "done"
   /\ Match(Head(p.out[c]), cls, y, z)
+  /\ NoDebt(p, c)
 PResp(p, c, cls) ==
   LET p0 == [p EXCEPT !.out[c] = Tail(@)]
-      p1 == IF Head(p.out[c]).k \in CloseKinds THEN [p0 EXCEPT !.cst[c] = "closing"] ELSE p0 IN
-  IF cls \in {"lstart", "lcont"} THEN [p1 EXCEPT !.strl[c] = TRUE]
-  ELSE IF cls = "lstop" THEN [p1 EXCEPT !.strl[c] = FALSE] ELSE p1
+      p1 == IF Head(p.out[c]).k \in CloseKinds THEN [p0 EXCEPT !.cst[c] = "closing"] ELSE p0
+      p2 == IF Len(p.out[c]) = 1 THEN [p1 EXCEPT !.need[c] = Promote(@, 3, 4)] ELSE p1 IN
+  IF cls \in {"lstart", "lcont"} THEN [p2 EXCEPT !.strl[c] = TRUE]
+  ELSE IF cls = "lstop" THEN [p2 EXCEPT !.strl[c] = FALSE, !.need[c] = [t \in Tags |-> 0]] ELSE p2
 
 (* an update line: only while listening, and about a value that was really read *)
-PPushOk(p, c, tag, z) == p.cst[c] = "open" /\ p.strl[c] /\ tag \in Tags /\ z[1] >= 0 /\ z[1] < p.cnt[tag]
+PPushOk(p, c, tag, z) == /\ p.cst[c] \in {"open", "shut", "closing"} /\ p.strl[c]      \* (a `quit` while listening: update lines may still follow its block)
+                         /\ tag = 0 \/ (tag \in Tags /\ z[1] >= 0 /\ z[1] < p.cnt[tag])    \* tag 0: a message outside the test world
+PPush(p, c, tag, z) == IF tag \in Tags /\ z[1] = p.val[tag] THEN [p EXCEPT !.need[c][tag] = 0] ELSE p
 
 (* the server closes: only behind the answered quit / HTTP request; lines behind it stay unanswered *)
-PEofOk(p, c) == p.cst[c] = "closing"
+(* or after the client closed its sending side - then only when every line it sent has been answered (echo cmd | nc -N) *)
+PEofOk(p, c) == (p.cst[c] = "closing" \/ (p.cst[c] = "shut" /\ p.out[c] = <<>>)) /\ NoDebt(p, c)
 PClose(p, c, how) == [p EXCEPT !.cst[c] = how]
 
 (* end of a history: every line of a connection that is still open has been answered *)
-PFinalOk(p) == \A c \in Conns : p.cst[c] = "open" => p.out[c] = <<>>
+PFinalOk(p) == \A c \in Conns : p.cst[c] \in {"open", "shut"} => (p.out[c] = <<>> /\ NoDebt(p, c))
+
+
+(* ======================================================================== S *)
+(* Code-shaped model.  g = configuration record:                                *)
+(*   prog[c]   sequence of sets of <<kind, tag>>: the lines client c may send   *)
+(*   split     a line may be written in two chunks (head, tail)                 *)
+(*   multi     two lines may be written in ONE chunk                            *)
+(*   pipe      the client may send the next line before the response arrived    *)
+(*   tcpmerge  the kernel may hand two written chunks to one recv()             *)
+(*   aclose    the client may close its socket at any time                      *)
+(*   spurious  pthread_cond_wait may return without a signal (POSIX allows it)  *)
+(*   shutdown  SIGTERM may arrive (main.cpp: main loop ends, Network deleted)   *)
+(*   bug       "none" or the name of a seeded error (vacuity control)           *)
+(* Text model: a chunk is a sequence of pieces <<line index, part>>, part "w" = *)
+(* whole line incl. newline, "h" = head without newline, "t" = rest incl.       *)
+(* newline.  RequestImpl::add appends the chunk to m_request; the request is    *)
+(* complete as soon as m_request holds a newline; only when the FIRST newline   *)
+(* is the last character is it stripped - otherwise everything received so far  *)
+(* (several lines, or a line and the beginning of the next) stays ONE request.  *)
+MCC == 1..2
+HasNl(pc) == pc[2] \in {"w", "t"}
+Complete(buf) == \E n \in 1..Len(buf) : HasNl(buf[n])
+CleanLine(buf) == IF buf = <<>> THEN 0
+                  ELSE IF Len(buf) = 1 /\ buf[1][2] = "w" THEN buf[1][1]
+                  ELSE IF Len(buf) = 2 /\ buf[1][2] = "h" /\ buf[2][2] = "t" /\ buf[1][1] = buf[2][1] THEN buf[1][1]
+                  ELSE -1
+
+ConInit == [pc |-> "poll", buf |-> <<>>, rset |-> FALSE, res |-> <<>>, disc |-> FALSE, mode |-> FALSE, lsince |-> 0,
+            alive |-> TRUE, loc |-> <<>>, locd |-> FALSE, ntf |-> FALSE]
+SInit == [todo |-> [c \in MCC |-> 1], half |-> [c \in MCC |-> FALSE], lines |-> [c \in MCC |-> <<>>],
+          wait |-> [c \in MCC |-> 0], ccl |-> [c \in MCC |-> "open"],
+          sock |-> [c \in MCC |-> <<>>], back |-> [c \in MCC |-> <<>>], sclosed |-> [c \in MCC |-> FALSE],
+          con |-> [c \in MCC |-> ConInit], q |-> <<>>,
+          ml |-> [pc |-> "pop", cur |-> 0, out |-> <<>>, odisc |-> FALSE, omode |-> FALSE],
+          val |-> [t \in Tags |-> -1], cnt |-> [t \in Tags |-> 0], sd |-> "run"]
+
+Step(s, ev) == [s |-> s, ev |-> ev]
+InvEv(c, ln) == <<c, "inv", ln[1], ln[2], <<>> >>
+Awaited(ln) == IF ln[1] = "empty" THEN 0 ELSE 1
+
+(* ---- client ---- *)
+ClientSend(g, s, c) ==
+  LET i == s.todo[c] IN
+  IF s.ccl[c] # "open" \/ i > Len(g.prog[c]) THEN {}
+  ELSE IF s.half[c] THEN   \* the rest of a line whose head was written before
+    {Step([s EXCEPT !.sock[c] = Append(@, << <<i, "t">> >>), !.half[c] = FALSE, !.todo[c] = i + 1,
+                    !.wait[c] = @ + Awaited(s.lines[c][i])], <<InvEv(c, s.lines[c][i])>>)}
+  ELSE IF ~g.pipe /\ s.wait[c] > 0 THEN {}
+  ELSE UNION {
+    LET s1 == [s EXCEPT !.lines[c] = Append(@, ln)] IN
+      {Step([s1 EXCEPT !.sock[c] = Append(@, << <<i, "w">> >>), !.todo[c] = i + 1, !.wait[c] = @ + Awaited(ln)], <<InvEv(c, ln)>>)}
+      \cup (IF g.split THEN {Step([s1 EXCEPT !.sock[c] = Append(@, << <<i, "h">> >>), !.half[c] = TRUE], <<>>)} ELSE {})
+      \cup (IF g.multi /\ i < Len(g.prog[c])
+            THEN {Step([s1 EXCEPT !.lines[c] = Append(@, l2), !.sock[c] = Append(@, << <<i, "w">>, <<i + 1, "w">> >>), !.todo[c] = i + 2,
+                                  !.wait[c] = @ + Awaited(ln) + Awaited(l2)], <<InvEv(c, ln), InvEv(c, l2)>>) : l2 \in g.prog[c][i + 1]}
+            ELSE {})
+    : ln \in g.prog[c][i]}
+
+ClientRecv(s, c) ==
+  IF s.ccl[c] = "open" /\ s.back[c] # <<>>
+  THEN LET it == Head(s.back[c]) IN
+       {Step([s EXCEPT !.back[c] = Tail(@), !.wait[c] = IF it[1] = "resp" /\ @ > 0 THEN @ - 1 ELSE @], << <<c, it[1], it[2], it[3], it[4]>> >>)}
+  ELSE {}
+ClientEof(s, c) == IF s.ccl[c] = "open" /\ s.back[c] = <<>> /\ s.sclosed[c]
+                   THEN {Step([s EXCEPT !.ccl[c] = "eof"], << <<c, "eof", "", 0, <<>> >> >>)} ELSE {}
+ClientClose(g, s, c) == IF g.aclose /\ s.ccl[c] = "open"
+                        THEN {Step([s EXCEPT !.ccl[c] = "closed"], << <<c, "close", "", 0, <<>> >> >>)} ELSE {}
+
+(* ---- Connection::run ---- *)
+Recv(g, s, c, chunk, rest) ==
+  LET buf == s.con[c].buf \o chunk IN
+  IF Complete(buf) THEN [s EXCEPT !.sock[c] = rest, !.con[c].buf = buf, !.con[c].pc = "wait0", !.q = Append(@, c)]   \* push(&req)
+  ELSE [s EXCEPT !.sock[c] = rest, !.con[c].buf = buf]
+Ended(s, c) == [s EXCEPT !.con[c].pc = "ended", !.con[c].alive = FALSE, !.sclosed[c] = TRUE]   \* `RequestImpl req` leaves scope
+ConnPoll(g, s, c) ==
+  IF s.con[c].pc # "poll" THEN {}
+  ELSE IF s.con[c].ntf THEN {Step(Ended(s, c), <<>>)}                                          \* notify pipe is looked at first
+  ELSE IF s.sock[c] # <<>> THEN
+         {Step(Recv(g, s, c, Head(s.sock[c]), Tail(s.sock[c])), <<>>)}
+         \cup (IF g.tcpmerge /\ Len(s.sock[c]) >= 2
+               THEN {Step(Recv(g, s, c, s.sock[c][1] \o s.sock[c][2], Tail(Tail(s.sock[c]))), <<>>)} ELSE {})
+  ELSE (IF s.ccl[c] = "closed" THEN {Step(Ended(s, c), <<>>)} ELSE {})                          \* recv() = 0 / POLLRDHUP
+       \cup (IF s.con[c].mode /\ s.con[c].buf = <<>> /\ s.ccl[c] = "open" /\ g.listenpoll      \* 2 s poll timeout while listening:
+             THEN {Step([s EXCEPT !.con[c].pc = "wait0", !.q = Append(@, c)], <<>>)} ELSE {})  \* add("") is "complete"
+
+(* waitResponse: lock; if (!m_resultSet) pthread_cond_wait(); take the result *)
+Take(g, s, c) == [s EXCEPT !.con[c].loc = s.con[c].res, !.con[c].locd = s.con[c].disc, !.con[c].buf = <<>>, !.con[c].res = <<>>,
+                           !.con[c].rset = (g.bug = "stale" /\ s.con[c].rset), !.con[c].pc = "send"]
+ConnWait(g, s, c) ==
+  IF s.con[c].pc = "wait0" THEN (IF s.con[c].rset THEN {Step(Take(g, s, c), <<>>)} ELSE {Step([s EXCEPT !.con[c].pc = "cwait"], <<>>)})
+  ELSE IF s.con[c].pc = "woken" THEN {Step(Take(g, s, c), <<>>)}             \* `if`, not `while`: no second look at m_resultSet
+  ELSE IF s.con[c].pc = "cwait" /\ g.spurious THEN {Step([s EXCEPT !.con[c].pc = "woken"], <<>>)}
+  ELSE IF s.con[c].pc = "cwait" /\ g.bug = "abandon" /\ s.ccl[c] = "closed" THEN {Step(Ended(s, c), <<>>)}
+  ELSE {}
+ConnSend(g, s, c) ==
+  IF s.con[c].pc # "send" THEN {}
+  ELSE LET s1 == IF s.ccl[c] = "open" THEN [s EXCEPT !.back[c] = @ \o s.con[c].loc] ELSE s
+           s2 == [s1 EXCEPT !.con[c].loc = <<>>] IN
+       IF s.con[c].locd THEN {Step(Ended(s2, c), <<>>)} ELSE {Step([s2 EXCEPT !.con[c].pc = "poll"], <<>>)}
+
+(* ---- MainLoop::run, request part ---- *)
+MainPop(g, s) ==
+  IF s.ml.pc # "pop" THEN {}
+  ELSE (IF s.sd # "run" THEN {Step([s EXCEPT !.ml.pc = "ended"], <<>>)} ELSE {})               \* while (!m_shutdown)
+       \cup (IF s.q # <<>>
+             THEN (IF g.bug = "lifo" THEN {Step([s EXCEPT !.ml.pc = "exec", !.ml.cur = s.q[Len(s.q)], !.q = SubSeq(s.q, 1, Len(s.q) - 1)], <<>>)}
+                   ELSE {Step([s EXCEPT !.ml.pc = "exec", !.ml.cur = Head(s.q), !.q = Tail(s.q)], <<>>)})
+             ELSE {})
+Blk(cls, y, z) == <<"resp", cls, y, z>>
+(* update lines for a listening connection: the shared message 7 when it was read since this connection's last execution *)
+Pushes(s, c, cnt7, val7) == IF cnt7 > s.con[c].lsince THEN << <<"push", "", 7, <<val7>> >> >> ELSE <<>>
+MainExec(g, s) ==
+  IF s.ml.pc # "exec" THEN {}
+  ELSE LET c == s.ml.cur  buf == s.con[c].buf  i == CleanLine(buf) IN
+  IF s.sd # "run" THEN   \* if (m_shutdown) { req->setResult("ERR: shutdown", ..., true); break; }
+    {Step([s EXCEPT !.ml.pc = "sdset", !.ml.out = <<Blk("err", 0, <<>>)>>, !.ml.odisc = TRUE, !.ml.omode = s.con[c].mode], <<>>)}
+  ELSE IF i = -1 THEN    \* several lines as one request: some usage / error text, nothing of it is executed
+    {Step([s EXCEPT !.ml.pc = "set", !.ml.out = <<Blk("usage", 0, <<>>)>> \o (IF s.con[c].mode THEN Pushes(s, c, s.cnt[7], s.val[7]) ELSE <<>>),
+                    !.ml.odisc = FALSE, !.ml.omode = s.con[c].mode, !.con[c].lsince = IF s.con[c].mode THEN s.cnt[7] ELSE @], <<>>)}
+  ELSE IF i = 0 \/ s.lines[c][i][1] = "empty" THEN    \* empty request (the poll of a listening connection, or an empty line): update lines only
+    {Step([s EXCEPT !.ml.pc = "set", !.ml.out = IF s.con[c].mode THEN Pushes(s, c, s.cnt[7], s.val[7]) ELSE <<>>,
+                    !.ml.odisc = FALSE, !.ml.omode = s.con[c].mode, !.con[c].lsince = IF s.con[c].mode THEN s.cnt[7] ELSE @],
+          IF i > 0 THEN << <<c, "lin", "", 0, FALSE>> >> ELSE <<>>)}
+  ELSE LET ln == s.lines[c][i]  k == ln[1]  t == ln[2]
+           bus == k = "fread" \/ (k = "cread" /\ s.val[t] < 0)
+           v == IF bus THEN s.cnt[t] ELSE IF k = "cread" THEN s.val[t] ELSE 0
+           s1 == IF bus THEN [s EXCEPT !.val[t] = v, !.cnt[t] = @ + 1] ELSE s
+           blk == CASE k \in {"fread", "cread"} -> Blk("val", t, <<v>>)
+                    [] k = "find" -> Blk("find", t, [n \in 1..2 |-> <<TagSeqOf(t)[n], s.val[TagSeqOf(t)[n]]>>])
+                    [] k = "bogus" -> Blk("errnf", 0, <<>>)
+                    [] k = "quit" -> Blk("closed", 0, <<>>)
+                    [] k = "listen" -> Blk(IF s.con[c].mode THEN "lcont" ELSE "lstart", 0, <<>>)
+                    [] k = "lstop" -> Blk("lstop", 0, <<>>)
+                    [] OTHER -> Blk("other", 0, <<>>)
+           mode == IF k = "listen" THEN TRUE ELSE IF k = "lstop" THEN FALSE ELSE s.con[c].mode
+       IN {Step([s1 EXCEPT !.ml.pc = "set", !.ml.out = <<blk>> \o (IF mode THEN Pushes(s1, c, s1.cnt[7], s1.val[7]) ELSE <<>>),
+                           !.ml.odisc = (k = "quit"), !.ml.omode = mode, !.con[c].lsince = IF mode THEN s1.cnt[7] ELSE @],
+                << <<c, "lin", "", t, bus>> >>)}
+(* RequestImpl::setResult: under the mutex; pthread_cond_signal wakes the waiter if it is already inside cond_wait *)
+SetResult(g, s, c, out, disc, mode) ==
+  [s EXCEPT !.con[c].res = out, !.con[c].disc = disc, !.con[c].mode = mode, !.con[c].rset = TRUE,
+            !.con[c].pc = IF @ = "cwait" /\ g.bug # "nosignal" THEN "woken" ELSE @]
+MainSet(g, s) ==
+  IF s.ml.pc \notin {"set", "sdset"} THEN {}
+  ELSE LET c == IF g.bug = "wrongreq" /\ s.q # <<>> THEN Head(s.q) ELSE s.ml.cur
+           s1 == SetResult(g, s, c, s.ml.out, s.ml.odisc, s.ml.omode) IN
+       {Step([s1 EXCEPT !.ml.pc = IF s.ml.pc = "sdset" THEN "ended" ELSE "pop", !.ml.cur = 0, !.ml.out = <<>>], <<>>)}
+
+(* ---- shutdown as in main.cpp: signal -> MainLoop::shutdown; after the main loop ended: delete the Network ---- *)
+Signal(g, s) == IF g.shutdown /\ s.sd = "run" THEN {Step([s EXCEPT !.sd = "sig"], <<>>)} ELSE {}
+NetDtor(g, s) ==
+  IF s.sd = "sig" /\ s.ml.pc = "ended" THEN
+    (IF s.q # <<>> THEN {Step([SetResult(g, s, Head(s.q), <<Blk("err", 0, <<>>)>>, TRUE, s.con[Head(s.q)].mode) EXCEPT !.q = Tail(s.q)], <<>>)}   \* drain
+     ELSE {Step([s EXCEPT !.sd = "stop2"], <<>>)})
+  ELSE IF s.sd = "stop2" THEN {Step([s EXCEPT !.con[2].ntf = TRUE, !.sd = "join2"], <<>>)}      \* connection->stop(): notify
+  ELSE IF s.sd = "join2" /\ s.con[2].pc = "ended" THEN {Step([s EXCEPT !.sd = "stop1"], <<>>)}  \* connection->join()
+  ELSE IF s.sd = "stop1" THEN {Step([s EXCEPT !.con[1].ntf = TRUE, !.sd = "join1"], <<>>)}
+  ELSE IF s.sd = "join1" /\ s.con[1].pc = "ended" THEN {Step([s EXCEPT !.sd = "done"], <<>>)}
+  ELSE {}
+
+ClientSteps(g, s, c) == ClientSend(g, s, c) \cup ClientRecv(s, c) \cup ClientEof(s, c) \cup ClientClose(g, s, c)
+ConnSteps(g, s, c) == ConnPoll(g, s, c) \cup ConnWait(g, s, c) \cup ConnSend(g, s, c)
+MainSteps(g, s) == MainPop(g, s) \cup MainExec(g, s) \cup MainSet(g, s)
+
+(* lifetime hazard: the queue or the main loop holds a pointer to a RequestImpl that no longer exists *)
+NoDangling(s) == /\ s.ml.cur # 0 => s.con[s.ml.cur].alive
+                 /\ \A n \in 1..Len(s.q) : s.con[s.q[n]].alive
+
+(* ---- P as a monitor of S: consume the events of one step; "lin" is the execution by the main loop ---- *)
+MonStep(m, e) ==
+  LET p == m.p  c == e[1]  ty == e[2] IN
+  IF m.err # "" THEN m
+  ELSE CASE ty = "inv" -> IF PInvOk(p, c, e[3]) THEN [m EXCEPT !.p = PInv(p, c, e[3], e[4])] ELSE [m EXCEPT !.err = "inv"]
+         [] ty = "lin" -> IF PLinOk(p, c, e[5], e[4]) THEN [m EXCEPT !.p = PLin(p, c, e[5])] ELSE [m EXCEPT !.err = "lin"]
+         [] ty = "resp" -> IF PRespOk(p, c, e[3], e[4], e[5]) THEN [m EXCEPT !.p = PResp(p, c, e[3])] ELSE [m EXCEPT !.err = "resp"]
+         [] ty = "push" -> IF PPushOk(p, c, e[4], e[5]) THEN [m EXCEPT !.p = PPush(p, c, e[4], e[5])] ELSE [m EXCEPT !.err = "push"]
+         [] ty = "eof" -> IF PEofOk(p, c) THEN [m EXCEPT !.p = PClose(p, c, "eof")] ELSE [m EXCEPT !.err = "eof"]
+         [] ty = "close" -> [m EXCEPT !.p = PClose(p, c, "closed")]
+         [] OTHER -> [m EXCEPT !.err = "event"]
+RECURSIVE MonRun(_, _)
+MonRun(m, evs) == IF evs = <<>> THEN m ELSE MonRun(MonStep(m, Head(evs)), Tail(evs))
 
 =============================================================================
